@@ -220,8 +220,8 @@ fn c02(seed: u64, case: u64, out: &Out) {
     let mut rng = Rng::for_case(seed ^ 0xC02, case);
     let loops = *rng.pick(&[1usize, 2, 4]);
     let joiners = *rng.pick(&[1usize, 2, 4, 16]);
-    let per = rng.usize(20, 120);
-    let forced = case % 3 == 0; // force "completion lands between first check and registration" through the pause hook
+    let forced = case % 3 == 0;
+    let per = if forced { rng.usize(6, 16) } else { rng.usize(20, 120) }; // force "completion lands between first check and registration" through the pause hook
     out.begin(case, jobj! {"event_loops" => loops, "joiner_threads" => joiners, "tasks_per_joiner" => per, "forced_schedule" => if forced {"waiter paused after its first result check until the task finished + 20 ms"} else {"none"}});
     init(loops, 256, 0, 0);
     static FINISHED: Mutex<Option<std::collections::HashMap<u64, u64>>> = Mutex::new(None);
@@ -305,7 +305,7 @@ fn c02(seed: u64, case: u64, out: &Out) {
                 }
                 let t_call = mono_ns();
                 let fin_before = FINISHED.lock().unwrap().as_ref().and_then(|m| m.get(&id).copied());
-                let got = h.timeout_join(Duration::from_secs(4));
+                let got = h.timeout_join(Duration::from_secs(3));
                 let t_ret = mono_ns();
                 let fin = FINISHED.lock().unwrap().as_ref().and_then(|m| m.get(&id).copied()).unwrap_or(t_ret);
                 let want = match kind {
@@ -341,7 +341,7 @@ fn c02(seed: u64, case: u64, out: &Out) {
         if got != want {
             let kind = if got.starts_with("JoinError(TimedOut") { "join-timed-out-although-task-finished" } else if got.starts_with("JoinError") { "join-failed" } else { "join-returned-another-outcome" };
             let ctx = if loops > 1 { "multi-loop" } else { "single-loop" };
-            viol = viol.or(Some((format!("{kind}/{ctx}{}", if forced { "/completion-between-check-and-register" } else { "" }), format!("task {uid}: joined {got}, its own outcome is {want} (latency after finish {lat} ns)"))));
+            viol = viol.or(Some((format!("{kind}/{ctx}{}", if forced && loops == 1 { "/completion-between-check-and-register" } else { "" }), format!("task {uid}: joined {got}, its own outcome is {want} (latency after finish {lat} ns)"))));
         } else if *lat > 1_000_000_000 {
             viol = viol.or(Some((format!("join-not-prompt{}", if forced { "/completion-between-check-and-register" } else { "" }), format!("task {uid}: join returned {} ms after the task had finished", lat / 1_000_000))));
         }
@@ -355,6 +355,747 @@ fn c02(seed: u64, case: u64, out: &Out) {
     }
 }
 
+
+// ====================================================================== C15
+fn c15(seed: u64, case: u64, out: &Out) {
+    use open_coroutine_core::syscall as oc;
+    let mut rng = Rng::for_case(seed ^ 0xC15, case);
+    let scenario = case % 3; // 0: N sleepers, 1: N tasks parked in a hooked socket read with a timeout, 2: late arrival while a long sleeper is parked
+    let n = *rng.pick(&[6usize, 8, 16, 32]);
+    let d_ms: u64 = *rng.pick(&[20u64, 200]);
+    out.begin(case, jobj! {"scenario" => ["N tasks in hooked usleep/nanosleep + one computing sibling", "N tasks parked in a hooked recv (SO_RCVTIMEO) + one computing sibling", "a task submitted while the only worker is parked in a long hooked sleep"][scenario as usize],
+        "tasks" => n, "each_blocks_ms" => d_ms});
+    init(1, n + 8, 0, 0);
+    let done = Arc::new(AtomicUsize::new(0));
+    let progress = Arc::new(AtomicU64::new(0));
+    let stop_sibling = Arc::new(AtomicBool::new(false));
+    let t0 = Instant::now();
+    let mut viol: Option<(String, String)> = None;
+    let mut obs = J::Null;
+    let mut nontrivial = true;
+    if scenario == 2 {
+        let long_ms = 1500u64;
+        let a_started = Arc::new(AtomicBool::new(false));
+        let a2 = a_started.clone();
+        let ha = EventLoops::submit_task(None, move |_| {
+            a2.store(true, Ordering::SeqCst);
+            let _ = oc::usleep(None, (long_ms * 1000) as u32);
+            Some(1)
+        }, None, None);
+        while !a_started.load(Ordering::SeqCst) && t0.elapsed() < Duration::from_secs(5) {
+            std::thread::sleep(Duration::from_millis(1));
+        }
+        std::thread::sleep(Duration::from_millis(rng.range(100, 300)));
+        let tb = Instant::now();
+        let hb = EventLoops::submit_task(None, move |_| {
+            let _ = oc::usleep(None, 50_000);
+            Some(2)
+        }, None, None);
+        let rb = hb.timeout_join(Duration::from_secs(5));
+        let lat = tb.elapsed().as_millis() as u64;
+        obs = jobj! {"late_task_latency_ms" => lat, "long_sleeper_ms" => long_ms};
+        if !matches!(rb, Ok(Ok(Some(2)))) {
+            viol = Some(("late-task-did-not-finish".into(), format!("{rb:?} after {lat} ms")));
+        } else if lat > 650 {
+            viol = Some(("late-task-waited-for-parked-sibling".into(), format!("a 50 ms task took {lat} ms while the only other worker was parked in a {long_ms} ms hooked sleep")));
+        }
+        std::mem::forget(ha);
+    } else {
+        // computing sibling: yields all the time, must keep making progress while the others are parked
+        let (p2, s2) = (progress.clone(), stop_sibling.clone());
+        let hs = EventLoops::submit_task(None, move |_| {
+            while !s2.load(Ordering::SeqCst) {
+                p2.fetch_add(1, Ordering::SeqCst);
+                if let Some(s) = SchedulableSuspender::current() {
+                    s.suspend();
+                }
+            }
+            Some(0)
+        }, None, None);
+        let mut socks = vec![];
+        let mut hs_all = vec![];
+        let t_sub = Instant::now();
+        for i in 0..n {
+            let d2 = done.clone();
+            if scenario == 0 {
+                let use_nano = i % 2 == 1;
+                hs_all.push(EventLoops::submit_task(None, move |_| {
+                    if use_nano {
+                        let rq = libc::timespec { tv_sec: (d_ms / 1000) as libc::time_t, tv_nsec: ((d_ms % 1000) * 1_000_000) as libc::c_long };
+                        let _ = oc::nanosleep(None, &raw const rq, std::ptr::null_mut());
+                    } else {
+                        let _ = oc::usleep(None, (d_ms * 1000) as u32);
+                    }
+                    d2.fetch_add(1, Ordering::SeqCst);
+                    Some(i)
+                }, None, None));
+            } else {
+                let mut sv = [0; 2];
+                assert_eq!(0, unsafe { libc::socketpair(libc::AF_UNIX, libc::SOCK_STREAM, 0, sv.as_mut_ptr()) });
+                socks.push(sv);
+                let fd = sv[0];
+                hs_all.push(EventLoops::submit_task(None, move |_| {
+                    let tv = libc::timeval { tv_sec: (d_ms / 1000) as libc::time_t, tv_usec: ((d_ms % 1000) * 1000) as libc::suseconds_t };
+                    let _ = oc::setsockopt(None, fd, libc::SOL_SOCKET, libc::SO_RCVTIMEO, std::ptr::from_ref(&tv).cast(), size_of::<libc::timeval>() as libc::socklen_t);
+                    let mut b = [0u8; 8];
+                    let _ = oc::recv(None, fd, b.as_mut_ptr().cast(), 8, 0);
+                    d2.fetch_add(1, Ordering::SeqCst);
+                    Some(i)
+                }, None, None));
+            }
+        }
+        let p_before = progress.load(Ordering::SeqCst);
+        let limit = Duration::from_millis((n as u64 * d_ms).max(2000) + 5000);
+        while done.load(Ordering::SeqCst) < n && t_sub.elapsed() < limit {
+            std::thread::sleep(Duration::from_millis(1));
+        }
+        let total_ms = t_sub.elapsed().as_millis() as u64;
+        let p_during = progress.load(Ordering::SeqCst) - p_before;
+        stop_sibling.store(true, Ordering::SeqCst);
+        let bound = (2 * d_ms).max(d_ms + 300);
+        obs = jobj! {"all_done_after_ms" => total_ms, "bound_ms" => bound, "serial_execution_would_need_ms" => n as u64 * d_ms, "sibling_progress_steps_meanwhile" => p_during, "finished" => done.load(Ordering::SeqCst)};
+        nontrivial = n as u64 * d_ms > 2 * bound;
+        if done.load(Ordering::SeqCst) < n {
+            viol = Some(("blocked-tasks-never-finished".into(), format!("{} of {n} finished within {} ms", done.load(Ordering::SeqCst), limit.as_millis())));
+        } else if total_ms > bound && n as u64 * d_ms > 2 * bound {
+            viol = Some(("blocked-coroutines-ran-one-after-another".into(), format!("{n} tasks blocking {d_ms} ms each finished after {total_ms} ms (bound {bound} ms, serial {} ms)", n as u64 * d_ms)));
+        } else if p_during < 5 {
+            viol = Some(("sibling-starved-while-others-blocked".into(), format!("the computing sibling made {p_during} steps in {total_ms} ms")));
+        }
+        std::mem::forget(hs);
+        std::mem::forget(hs_all);
+        for sv in socks {
+            unsafe {
+                libc::close(sv[1]);
+            }
+        }
+    }
+    let fp = format!("{scenario}|{n}|{d_ms}");
+    match viol {
+        Some((k, d)) => out.end(case, Verdict::Violated, &format!("C15/{k}"), true, &fp, obs, &d),
+        None => out.end(case, Verdict::Held, "", nontrivial, &fp, obs, ""),
+    }
+}
+
+// ====================================================================== C20
+static RESUME_EVENTS: Mutex<Vec<(u64, u64, u64)>> = Mutex::new(Vec::new()); // (token, was_registered, mono_ns)
+
+fn c20(seed: u64, case: u64, out: &Out) {
+    use open_coroutine_core::common::constants::{SyscallName, SyscallState};
+    use open_coroutine_core::scheduler::SchedulableCoroutine;
+    let mut rng = Rng::for_case(seed ^ 0xC20, case);
+    let waiters = *rng.pick(&[1usize, 2, 4, 8, 16]);
+    let write_interest = case % 4 == 3;
+    // draining a full socket buffer produces several "writable" edges, so a second round would be woken by the tail of the first drain
+    let rounds = if write_interest { 1 } else { rng.usize(1, 3) };
+    let never_ready = if waiters > 1 { rng.usize(0, 1) } else { 0 }; // this many waiters are never made ready: they must time out, not return early
+    out.begin(case, jobj! {"waiters" => waiters, "rounds_per_waiter" => rounds, "interest" => if write_interest {"write"} else {"read"}, "waiters_never_made_ready" => never_ready, "wait_timeout_ms" => 3000});
+    init(1, 64, 0, 0);
+    fn observer(kind: &'static str, a: u64, b: u64, _: &str) {
+        if kind == "resume" {
+            RESUME_EVENTS.lock().unwrap().push((a, b, mono_ns()));
+        }
+    }
+    open_coroutine_core::verif::set_observer(Some(observer));
+    // per waiter: a socketpair; the task waits on sv[0]
+    let mut socks = vec![];
+    for _ in 0..waiters {
+        let mut sv = [0; 2];
+        assert_eq!(0, unsafe { libc::socketpair(libc::AF_UNIX, libc::SOCK_STREAM, 0, sv.as_mut_ptr()) });
+        unsafe {
+            let fl = libc::fcntl(sv[0], libc::F_GETFL);
+            libc::fcntl(sv[0], libc::F_SETFL, fl | libc::O_NONBLOCK);
+        }
+        socks.push(sv);
+    }
+    // (waiter, round) -> (co_id, wait_start, wait_return, result_ok)
+    let log: Arc<Mutex<Vec<(usize, usize, u64, u64, u64, bool)>>> = Arc::default();
+    let ready_at: Arc<Mutex<std::collections::HashMap<(usize, usize), u64>>> = Arc::default();
+    let waiting_now: Arc<Mutex<std::collections::HashMap<usize, (usize, u64)>>> = Arc::default();
+    let mut hs = vec![];
+    for w in 0..waiters {
+        let fd = socks[w][0];
+        let (log, waiting_now) = (log.clone(), waiting_now.clone());
+        let lazy = w < never_ready;
+        hs.push(EventLoops::submit_task(None, move |_| {
+            let co = SchedulableCoroutine::current().expect("in coroutine");
+            let id = co.id();
+            let n = if lazy { 1 } else { rounds };
+            for r in 0..n {
+                if write_interest {
+                    // fill the send buffer so that "writable" is a real event later
+                    let junk = [3u8; 65536];
+                    while unsafe { libc::write(fd, junk.as_ptr().cast(), junk.len()) } > 0 {}
+                }
+                // what a hooked call does around its readiness wait
+                co.syscall((), SyscallName::recv, SyscallState::Executing).expect("enter syscall state");
+                let t_start = mono_ns();
+                waiting_now.lock().unwrap().insert(w, (r, t_start));
+                let res = if write_interest { EventLoops::wait_write_event(fd, Some(Duration::from_secs(3))) } else { EventLoops::wait_read_event(fd, Some(Duration::from_secs(3))) };
+                let t_ret = mono_ns();
+                waiting_now.lock().unwrap().remove(&w);
+                let co = SchedulableCoroutine::current().expect("in coroutine");
+                let _ = co.running();
+                if !write_interest {
+                    let mut b = [0u8; 64];
+                    unsafe { libc::read(fd, b.as_mut_ptr().cast(), 64) };
+                }
+                log.lock().unwrap().push((w, r, id, t_start, t_ret, res.is_ok()));
+            }
+            Some(w)
+        }, None, None));
+    }
+    // the driver makes descriptors ready in random order, 100-200 ms after the waiter started waiting on that round
+    let mut order: Vec<usize> = (never_ready..waiters).collect();
+    let t_all = Instant::now();
+    let mut finished_rounds = vec![0usize; waiters];
+    while t_all.elapsed() < Duration::from_secs(20) {
+        let snapshot: Vec<(usize, (usize, u64))> = waiting_now.lock().unwrap().iter().map(|(k, v)| (*k, *v)).collect();
+        // shuffle
+        for i in (1..order.len()).rev() {
+            order.swap(i, rng.usize(0, i));
+        }
+        for w in &order {
+            if let Some((_, (r, t_start))) = snapshot.iter().find(|(k, _)| k == w) {
+                if ready_at.lock().unwrap().contains_key(&(*w, *r)) {
+                    continue;
+                }
+                if mono_ns().saturating_sub(*t_start) < 100_000_000 {
+                    continue;
+                }
+                ready_at.lock().unwrap().insert((*w, *r), mono_ns());
+                unsafe {
+                    if write_interest {
+                        let mut sink = vec![0u8; 1 << 20];
+                        let fl = libc::fcntl(socks[*w][1], libc::F_GETFL);
+                        libc::fcntl(socks[*w][1], libc::F_SETFL, fl | libc::O_NONBLOCK);
+                        while libc::read(socks[*w][1], sink.as_mut_ptr().cast(), sink.len()) > 0 {}
+                    } else {
+                        let m = [1u8; 4];
+                        libc::write(socks[*w][1], m.as_ptr().cast(), 4);
+                    }
+                }
+            }
+        }
+        let l = log.lock().unwrap();
+        for w in 0..waiters {
+            finished_rounds[w] = l.iter().filter(|e| e.0 == w).count();
+        }
+        let all = (0..waiters).all(|w| finished_rounds[w] >= if w < never_ready { 1 } else { rounds });
+        drop(l);
+        if all {
+            break;
+        }
+        std::thread::sleep(Duration::from_millis(5));
+    }
+    let l = log.lock().unwrap().clone();
+    let ra = ready_at.lock().unwrap().clone();
+    let evs = RESUME_EVENTS.lock().unwrap().clone();
+    let mut viol: Option<(String, String)> = None;
+    let mut worst = 0u64;
+    let mut woken_by_event = 0usize;
+    for (w, r, id, t_start, t_ret, _ok) in &l {
+        if *w < never_ready {
+            let waited = t_ret - t_start;
+            if waited < 2_900_000_000 {
+                viol = viol.or(Some(("waiter-resumed-although-its-descriptor-never-became-ready".into(), format!("waiter {w} returned after {} ms, its descriptor was never made ready (timeout 3000 ms)", waited / 1_000_000))));
+            }
+            continue;
+        }
+        let Some(t_ready) = ra.get(&(*w, *r)) else {
+            viol = viol.or(Some(("waiter-returned-before-readiness".into(), format!("waiter {w} round {r} returned although its descriptor had not been made ready"))));
+            continue;
+        };
+        if t_ret < t_ready {
+            viol = viol.or(Some(("waiter-returned-before-readiness".into(), format!("waiter {w} round {r}"))));
+            continue;
+        }
+        let lat = t_ret - t_ready;
+        worst = worst.max(lat);
+        let hit = evs.iter().any(|(tok, reg, t)| tok == id && *reg == 1 && *t >= *t_ready && *t <= *t_ret + 1_000_000);
+        if hit {
+            woken_by_event += 1;
+        }
+        if lat > 1_000_000_000 {
+            viol = viol.or(Some((format!("readiness-did-not-wake-the-waiter/{}", if *r == 0 { "first-wait" } else { "later-wait-in-same-call" }), format!("waiter {w} round {r}: descriptor ready, waiter returned {} ms later (its 3000 ms timeout) - readiness event seen by the loop with a matching token: {hit}", lat / 1_000_000))));
+        } else if !hit {
+            viol = viol.or(Some((format!("woken-without-a-readiness-event-for-its-token/{}", if *r == 0 { "first-wait" } else { "later-wait-in-same-call" }), format!("waiter {w} round {r} (coroutine id {id:#x}) returned {} us after readiness but the loop's resume-by-token path never saw its token as registered", lat / 1000))));
+        }
+    }
+    // every "registered" resume must belong to a coroutine that was waiting on a descriptor that had been made ready
+    for (tok, reg, t) in &evs {
+        if *reg == 1 {
+            let ok = l.iter().any(|(w, r, id, t_start, t_ret, _)| id == tok && *t >= *t_start && *t <= *t_ret + 1_000_000 && ra.get(&(*w, *r)).is_some_and(|tr| *tr <= *t));
+            if !ok {
+                viol = viol.or(Some(("readiness-resumed-a-coroutine-whose-descriptor-was-not-ready".into(), format!("token {tok:#x} resumed at {t} without its descriptor having been made ready"))));
+            }
+        }
+    }
+    let expected: usize = (never_ready..waiters).map(|_| rounds).sum::<usize>() + never_ready;
+    if viol.is_none() && l.len() < expected {
+        viol = Some(("waiter-never-returned".into(), format!("{} of {expected} waits completed within 20 s", l.len())));
+    }
+    let obs = jobj! {"waits_completed" => l.len(), "waits_woken_by_a_matching_readiness_event" => woken_by_event, "worst_wake_latency_ms" => worst / 1_000_000, "resume_events_observed" => evs.len(),
+        "resume_events_with_unknown_token" => evs.iter().filter(|e| e.1 == 0).count()};
+    let fp = format!("{waiters}|{rounds}|{write_interest}|{never_ready}");
+    std::mem::forget(hs);
+    match viol {
+        Some((k, d)) => out.end(case, Verdict::Violated, &format!("C20/{k}"), true, &fp, obs, &d),
+        None => out.end(case, Verdict::Held, "", woken_by_event > 0, &fp, obs, ""),
+    }
+}
+
+
+// ====================================================================== C21
+/// Kernel truth: fd -> union over every epoll instance of this process of the registered event bits.
+fn epoll_interest() -> std::collections::HashMap<i32, u32> {
+    let mut m = std::collections::HashMap::new();
+    let Ok(rd) = std::fs::read_dir("/proc/self/fd") else { return m };
+    for e in rd.flatten() {
+        let Ok(link) = std::fs::read_link(e.path()) else { continue };
+        if !link.to_string_lossy().contains("eventpoll") {
+            continue;
+        }
+        let name = e.file_name().to_string_lossy().to_string();
+        let Ok(info) = std::fs::read_to_string(format!("/proc/self/fdinfo/{name}")) else { continue };
+        for line in info.lines() {
+            // tfd:       12 events:     2019 data: ...
+            let mut it = line.split_whitespace();
+            if it.next() != Some("tfd:") {
+                continue;
+            }
+            let (Some(fd), Some(_), Some(ev)) = (it.next(), it.next(), it.next()) else { continue };
+            if let (Ok(fd), Ok(ev)) = (fd.parse::<i32>(), u32::from_str_radix(ev, 16)) {
+                *m.entry(fd).or_insert(0) |= ev;
+            }
+        }
+    }
+    m
+}
+
+fn c21(seed: u64, case: u64, out: &Out) {
+    use open_coroutine_core::syscall as oc;
+    let mut rng = Rng::for_case(seed ^ 0xC21, case);
+    let loops = if case % 4 == 3 { 2 } else { 1 };
+    let nops = rng.usize(8, 40);
+    let from_task = case % 2 == 1;
+    init(loops, 16, 0, 0);
+    // three socketpair "slots"; the runtime only ever sees side 0
+    let mut socks: Vec<[i32; 2]> = vec![];
+    for _ in 0..3 {
+        let mut sv = [0; 2];
+        assert_eq!(0, unsafe { libc::socketpair(libc::AF_UNIX, libc::SOCK_STREAM, 0, sv.as_mut_ptr()) });
+        socks.push(sv);
+    }
+    const OPS: [&str; 9] = ["wait_read", "wait_write", "del_event", "del_read", "del_write", "shutdown_rd", "shutdown_wr", "shutdown_rdwr", "close_reopen"];
+    let plan: Vec<(usize, usize)> = (0..nops)
+        .map(|_| {
+            let op = match rng.below(20) {
+                0..=5 => 0,
+                6..=10 => 1,
+                11..=12 => 2,
+                13 => 3,
+                14 => 4,
+                15 => 5,
+                16 => 6,
+                17 => 7,
+                _ => 8,
+            };
+            (op, rng.usize(0, 2))
+        })
+        .collect();
+    out.begin(case, jobj! {"event_loops" => loops, "issued_from" => if from_task {"inside tasks"} else {"a plain thread"},
+        "history" => plan.iter().map(|(o, s)| format!("{}(s{s})", OPS[*o])).collect::<Vec<_>>().join(" ")});
+    let mut model: Vec<(bool, bool)> = vec![(false, false); 3]; // (read, write) interest per slot
+    let mut viol: Option<(String, String)> = None;
+    let mut checks = 0usize;
+    let mut reused = 0usize;
+    let mut both_seen = false;
+    for (step, (op, slot)) in plan.iter().enumerate() {
+        let fd = socks[*slot][0];
+        let do_op = {
+            let op = *op;
+            move || -> Result<(), String> {
+                match op {
+                    0 => EventLoops::wait_read_event(fd, Some(Duration::ZERO)).map_err(|e| e.to_string()),
+                    1 => EventLoops::wait_write_event(fd, Some(Duration::ZERO)).map_err(|e| e.to_string()),
+                    2 => EventLoops::del_event(fd).map_err(|e| e.to_string()),
+                    3 => EventLoops::del_read_event(fd).map_err(|e| e.to_string()),
+                    4 => EventLoops::del_write_event(fd).map_err(|e| e.to_string()),
+                    5 => {
+                        let _ = oc::shutdown(None, fd, libc::SHUT_RD);
+                        Ok(())
+                    }
+                    6 => {
+                        let _ = oc::shutdown(None, fd, libc::SHUT_WR);
+                        Ok(())
+                    }
+                    7 => {
+                        let _ = oc::shutdown(None, fd, libc::SHUT_RDWR);
+                        Ok(())
+                    }
+                    _ => {
+                        let _ = oc::close(None, fd);
+                        Ok(())
+                    }
+                }
+            }
+        };
+        let r = if from_task {
+            let (tx, rx) = std::sync::mpsc::channel();
+            let h = EventLoops::submit_task(None, move |_| {
+                let _ = tx.send(do_op());
+                None
+            }, None, None);
+            let r = rx.recv_timeout(Duration::from_secs(10));
+            std::mem::forget(h);
+            match r {
+                Ok(r) => r,
+                Err(_) => {
+                    out.end(case, Verdict::Inconclusive, "harness/task-did-not-run", false, "", J::Null, &format!("step {step}"));
+                    std::process::exit(3);
+                }
+            }
+        } else {
+            do_op()
+        };
+        let _ = r;
+        match *op {
+            0 => model[*slot].0 = true,
+            1 => model[*slot].1 = true,
+            2 | 7 => model[*slot] = (false, false),
+            3 | 5 => model[*slot].0 = false,
+            4 | 6 => model[*slot].1 = false,
+            _ => {
+                model[*slot] = (false, false);
+                // reopen: the descriptor number is very likely reused
+                unsafe { libc::close(socks[*slot][1]) };
+                let mut sv = [0; 2];
+                assert_eq!(0, unsafe { libc::socketpair(libc::AF_UNIX, libc::SOCK_STREAM, 0, sv.as_mut_ptr()) });
+                if sv[0] == fd || sv[1] == fd {
+                    reused += 1;
+                }
+                socks[*slot] = sv;
+            }
+        }
+        if model[*slot] == (true, true) {
+            both_seen = true;
+        }
+        // compare the kernel's registrations with the model for every slot
+        let k = epoll_interest();
+        for (i, sv) in socks.iter().enumerate() {
+            let ev = k.get(&sv[0]).copied().unwrap_or(0);
+            let got = (ev & 0x1 != 0, ev & 0x4 != 0);
+            checks += 1;
+            if got != model[i] && viol.is_none() {
+                let kind = match (model[i], got) {
+                    ((false, false), _) if *op == 8 && i == *slot => "reused-descriptor-inherits-stale-registration",
+                    ((false, false), _) => "stale-interest-left-registered",
+                    (_, (false, false)) => "outstanding-interest-not-registered",
+                    _ => "registered-interest-differs-from-outstanding",
+                };
+                viol = Some((format!("{kind}/{}-loop", if loops > 1 { "multi" } else { "single" }),
+                    format!("after step {step} {}(s{}): slot {i} (fd {}) kernel has read={} write={}, outstanding waits say read={} write={}", OPS[*op], slot, sv[0], got.0, got.1, model[i].0, model[i].1)));
+            }
+            // the peer side must never be registered
+            if k.contains_key(&sv[1]) && viol.is_none() {
+                viol = Some(("descriptor-never-waited-on-is-registered".into(), format!("fd {}", sv[1])));
+            }
+        }
+        if viol.is_some() {
+            break;
+        }
+    }
+    let obs = jobj! {"steps" => nops, "model_vs_kernel_comparisons" => checks, "descriptor_numbers_reused" => reused, "read_and_write_interest_together_seen" => both_seen};
+    let fp = format!("{loops}|{from_task}|{}", mon::fp_of(&format!("{plan:?}")));
+    match viol {
+        Some((k, d)) => out.end(case, Verdict::Violated, &format!("C21/{k}"), true, &fp, obs, &d),
+        None => out.end(case, Verdict::Held, "", both_seen || reused > 0, &fp, obs, ""),
+    }
+}
+
+
+// ====================================================================== C13
+static C13_EVENTS: Mutex<Vec<(usize, &'static str, u64)>> = Mutex::new(Vec::new()); // (uid, "start"|"end", t)
+static C13_GATE: AtomicU64 = AtomicU64::new(0); // pause hook: 0 = no hold, else hold until this flag is cleared
+
+fn c13(seed: u64, case: u64, out: &Out) {
+    let mut rng = Rng::for_case(seed ^ 0xC13, case);
+    // 0 cancel while queued, 1 cancel while running, 2 cancel while suspended in a delay, 3 forced: the running target finishes between lookup and signal
+    let phase = case % 4;
+    let others = rng.usize(3, 12);
+    let workers = if phase == 0 { 1 } else if phase == 3 { rng.usize(2, 3) } else { rng.usize(1, 3) };
+    out.begin(case, jobj! {"target_phase" => ["queued", "running", "suspended (delay)", "running, and it yields the thread to another task between the canceller's lookup and its signal (forced through the pause hook)"][phase as usize],
+        "other_tasks" => others, "pool_max_size" => workers});
+    init(1, workers, 0, 0);
+    C13_EVENTS.lock().unwrap().clear();
+    let stamp = |uid: usize, what: &'static str| C13_EVENTS.lock().unwrap().push((uid, what, mono_ns()));
+    let release = Arc::new(AtomicBool::new(false));
+    if phase == 3 {
+        fn pauser(point: &'static str, _task: u64) {
+            if point != "cancel:before_signal" {
+                return;
+            }
+            C13_GATE.store(1, Ordering::SeqCst);
+            let t0 = Instant::now();
+            // hold the canceller until the driver says the target is done and a victim is running on that thread
+            while C13_GATE.load(Ordering::SeqCst) == 1 && t0.elapsed() < Duration::from_secs(5) {
+                std::thread::sleep(Duration::from_millis(1));
+            }
+        }
+        open_coroutine_core::verif::set_pauser(Some(pauser));
+    }
+    let target_uid = 1000usize;
+    let mut handles: Vec<(usize, open_coroutine_core::net::join::JoinHandle)> = vec![];
+    // a blocker keeps the single worker busy so that the target is still queued when cancelled (phase 0)
+    if phase == 0 {
+        let h = EventLoops::submit_task(None, move |_| {
+            stamp(0, "start");
+            let t = Instant::now();
+            while t.elapsed() < Duration::from_millis(60) {
+                std::hint::spin_loop();
+            }
+            stamp(0, "end");
+            Some(0)
+        }, None, Some(-10));
+        handles.push((0, h));
+        std::thread::sleep(Duration::from_millis(15));
+    }
+    let rel = release.clone();
+    let th = EventLoops::submit_task(None, move |_| {
+        stamp(target_uid, "start");
+        match phase {
+            1 => {
+                let t = Instant::now();
+                while !rel.load(Ordering::SeqCst) && t.elapsed() < Duration::from_millis(1500) {
+                    std::hint::spin_loop();
+                }
+            }
+            2 => {
+                if let Some(s) = SchedulableSuspender::current() {
+                    s.delay(Duration::from_millis(400));
+                }
+            }
+            3 => {
+                let t = Instant::now();
+                while !rel.load(Ordering::SeqCst) && t.elapsed() < Duration::from_millis(1500) {
+                    std::hint::spin_loop();
+                }
+                // leave the thread to somebody else while the canceller still believes we are running on it
+                stamp(target_uid, "yielded");
+                if let Some(s) = SchedulableSuspender::current() {
+                    s.delay(Duration::from_millis(400));
+                }
+            }
+            _ => {}
+        }
+        stamp(target_uid, "end");
+        Some(target_uid)
+    }, None, Some(0));
+    let target_id = th.id().unwrap_or(0);
+    for i in 1..=others {
+        let kind = if phase == 3 { 1 } else { rng.below(3) };
+        let h = EventLoops::submit_task(None, move |_| {
+            stamp(i, "start");
+            match kind {
+                0 => {}
+                1 => {
+                    let t = Instant::now();
+                    while t.elapsed() < Duration::from_millis(if phase == 3 { 150 } else { 3 }) {
+                        std::hint::spin_loop();
+                    }
+                }
+                _ => {
+                    if let Some(s) = SchedulableSuspender::current() {
+                        s.delay(Duration::from_millis(10));
+                    }
+                }
+            }
+            stamp(i, "end");
+            Some(i)
+        }, None, Some(5));
+        handles.push((i, h));
+    }
+    // ---- the cancel
+    let started = |uid: usize| C13_EVENTS.lock().unwrap().iter().any(|e| e.0 == uid && e.1 == "start");
+    let ended = |uid: usize| C13_EVENTS.lock().unwrap().iter().any(|e| e.0 == uid && e.1 == "end");
+    let t0 = Instant::now();
+    let mut cancel_phase_ok = true;
+    match phase {
+        0 => {
+            if started(target_uid) {
+                cancel_phase_ok = false;
+            }
+            EventLoops::try_cancel_task(target_id);
+        }
+        1 | 2 => {
+            while !started(target_uid) && t0.elapsed() < Duration::from_secs(5) {
+                std::thread::sleep(Duration::from_millis(1));
+            }
+            std::thread::sleep(Duration::from_millis(if phase == 2 { 60 } else { 20 }));
+            cancel_phase_ok = started(target_uid) && !ended(target_uid);
+            EventLoops::try_cancel_task(target_id);
+            // give the (asynchronous) signal time to land on the target before it is allowed to finish
+            std::thread::sleep(Duration::from_millis(5));
+            release.store(true, Ordering::SeqCst);
+        }
+        _ => {
+            while !started(target_uid) && t0.elapsed() < Duration::from_secs(5) {
+                std::thread::sleep(Duration::from_millis(1));
+            }
+            std::thread::sleep(Duration::from_millis(10));
+            let canceller = std::thread::spawn(move || EventLoops::try_cancel_task(target_id));
+            // wait until the canceller sits in the window
+            let t1 = Instant::now();
+            while C13_GATE.load(Ordering::SeqCst) == 0 && t1.elapsed() < Duration::from_secs(2) {
+                std::thread::sleep(Duration::from_millis(1));
+            }
+            cancel_phase_ok = C13_GATE.load(Ordering::SeqCst) == 1;
+            // let the target finish, wait until some other task is running on that thread, then let the signal go
+            release.store(true, Ordering::SeqCst);
+            let t2 = Instant::now();
+            loop {
+                let evs = C13_EVENTS.lock().unwrap().clone();
+                let target_done = evs.iter().any(|e| e.0 == target_uid && e.1 == "yielded");
+                let victim_running = (1..=others).any(|i| evs.iter().any(|e| e.0 == i && e.1 == "start") && !evs.iter().any(|e| e.0 == i && e.1 == "end"));
+                if (target_done && victim_running) || t2.elapsed() > Duration::from_secs(3) {
+                    cancel_phase_ok = cancel_phase_ok && target_done && victim_running;
+                    break;
+                }
+                std::thread::sleep(Duration::from_micros(200));
+            }
+            C13_GATE.store(0, Ordering::SeqCst);
+            let _ = canceller.join();
+        }
+    }
+    // ---- joins
+    let mut viol: Option<(String, String)> = None;
+    for (uid, h) in &handles {
+        let r = h.timeout_join(Duration::from_secs(4));
+        if !matches!(r, Ok(Ok(Some(v))) if v == *uid) {
+            let st = started(*uid);
+            let en = ended(*uid);
+            let kind = if !st { "another-task-never-ran" } else if !en { "another-task-was-interrupted" } else { "another-task-lost-its-result" };
+            let ctx = if kind == "another-task-was-interrupted" && (phase == 1 || phase == 3) { "cancel-signal-landed-on-another-coroutine".to_string() } else { format!("target-{}", ["queued", "running", "suspended", "yielded-between-lookup-and-signal"][phase as usize]) };
+            viol = viol.or(Some((format!("{kind}/{ctx}"), format!("task {uid}: started={st} ended={en} join={r:?} (target phase: {})", ["queued", "running", "suspended", "yielded the thread between the canceller's lookup and its signal"][phase as usize]))));
+        }
+    }
+    let tj0 = Instant::now();
+    let tr = th.timeout_join(Duration::from_secs(3));
+    let tj = tj0.elapsed().as_millis() as u64;
+    if phase == 0 && cancel_phase_ok {
+        if started(target_uid) {
+            viol = viol.or(Some(("task-cancelled-before-start-ran-anyway".into(), "the target was cancelled while queued but it started".into())));
+        } else if tj >= 2900 {
+            viol = viol.or(Some(("waiter-of-task-cancelled-before-start-left-blocked".into(), format!("join on the cancelled (never started) task was still blocked after {tj} ms; every other task had finished long before"))));
+        }
+    }
+    let evs = C13_EVENTS.lock().unwrap().clone();
+    let obs = jobj! {"events" => evs.len(), "target_started" => started(target_uid), "target_ended" => ended(target_uid), "target_join" => format!("{tr:?}"), "target_join_ms" => tj,
+        "cancel_issued_in_intended_phase" => cancel_phase_ok};
+    let fp = format!("{phase}|{others}|{workers}");
+    std::mem::forget(handles);
+    std::mem::forget(th);
+    if !cancel_phase_ok {
+        // the schedule we wanted was not produced (e.g. the canceller never reached the window); holding it in the hook may
+        // itself have stalled the loop, so nothing observed in this run is judged
+        out.end(case, Verdict::Inconclusive, "harness/cancel-missed-the-intended-phase", false, &fp, obs, "");
+        return;
+    }
+    match viol {
+        Some((k, d)) => out.end(case, Verdict::Violated, &format!("C13/{k}"), true, &fp, obs, &d),
+        None => out.end(case, Verdict::Held, "", true, &fp, obs, ""),
+    }
+}
+
+// ====================================================================== C12 (runtime level)
+fn c12(seed: u64, case: u64, out: &Out) {
+    let mut rng = Rng::for_case(seed ^ 0xC12, case);
+    let loops = if case % 3 == 2 { 2 } else { 1 };
+    let n = rng.usize(4, 40);
+    let delayed_pct = *rng.pick(&[0u64, 30, 60]);
+    let workers = *rng.pick(&[1usize, 2, 8]);
+    out.begin(case, jobj! {"event_loops" => loops, "tasks_before_stop" => n, "percent_suspended_in_a_delay_when_stop_begins" => delayed_pct, "pool_max_size" => workers,
+        "what" => "submit tasks, then EventLoops::stop while a second thread keeps submitting"});
+    init(loops, workers, 0, 0);
+    let ran: Arc<Mutex<std::collections::HashSet<usize>>> = Arc::default();
+    let mut accepted: Vec<usize> = vec![];
+    let mut hs = vec![];
+    for i in 0..n {
+        let delayed = rng.chance(delayed_pct, 100);
+        let d = rng.range(50, 300);
+        let r2 = ran.clone();
+        let h = EventLoops::submit_task(None, move |_| {
+            if delayed {
+                if let Some(s) = SchedulableSuspender::current() {
+                    s.delay(Duration::from_millis(d));
+                }
+            }
+            r2.lock().unwrap().insert(i);
+            Some(i)
+        }, None, None);
+        if h.id().is_ok() {
+            accepted.push(i);
+        }
+        hs.push(h);
+    }
+    std::thread::sleep(Duration::from_millis(rng.range(0, 30)));
+    // racing submitter
+    let stop_returned = Arc::new(AtomicBool::new(false));
+    let late: Arc<Mutex<Vec<(usize, bool, bool)>>> = Arc::default(); // (uid, accepted, submitted_after_stop_returned)
+    let (sr, lt, rn) = (stop_returned.clone(), late.clone(), ran.clone());
+    let racer = std::thread::spawn(move || {
+        for k in 0..400usize {
+            let uid = 10_000 + k;
+            let after = sr.load(Ordering::SeqCst);
+            let r3 = rn.clone();
+            let h = EventLoops::submit_task(None, move |_| {
+                r3.lock().unwrap().insert(uid);
+                Some(uid)
+            }, None, None);
+            lt.lock().unwrap().push((uid, h.id().is_ok(), after));
+            std::mem::forget(h);
+            if after && k > 50 {
+                break;
+            }
+            std::thread::sleep(Duration::from_micros(300));
+        }
+    });
+    let t0 = Instant::now();
+    let res = EventLoops::stop(Duration::from_secs(10));
+    let stop_ms = t0.elapsed().as_millis() as u64;
+    let ran_at_stop: std::collections::HashSet<usize> = ran.lock().unwrap().clone();
+    stop_returned.store(true, Ordering::SeqCst);
+    let _ = racer.join();
+    std::thread::sleep(Duration::from_millis(50));
+    let late = late.lock().unwrap().clone();
+    let mut viol: Option<(String, String)> = None;
+    if res.is_ok() {
+        let missing: Vec<usize> = accepted.iter().copied().filter(|i| !ran_at_stop.contains(i)).collect();
+        if !missing.is_empty() {
+            viol = Some(("stop-reported-success-before-accepted-tasks-ran".into(), format!("{} of {} tasks accepted before stop began had not run when stop returned Ok after {stop_ms} ms, e.g. task {}", missing.len(), accepted.len(), missing[0])));
+        }
+        let late_missing: Vec<usize> = late.iter().filter(|(u, acc, _)| *acc && !ran_at_stop.contains(u) && !ran.lock().unwrap().contains(u)).map(|x| x.0).collect();
+        if viol.is_none() && !late_missing.is_empty() {
+            viol = Some(("task-accepted-while-stopping-never-ran".into(), format!("{} submissions were accepted (non-zero task id) during the stop but never ran, e.g. {}", late_missing.len(), late_missing[0])));
+        }
+    } else if stop_ms >= 9_900 {
+        viol = Some(("stop-timed-out".into(), format!("EventLoops::stop(10 s) failed after {stop_ms} ms: {res:?}; {} of {} accepted tasks had run", accepted.iter().filter(|i| ran_at_stop.contains(i)).count(), accepted.len())));
+    }
+    let accepted_after: Vec<usize> = late.iter().filter(|(_, acc, after)| *acc && *after).map(|x| x.0).collect();
+    if viol.is_none() && !accepted_after.is_empty() {
+        viol = Some(("submission-accepted-after-stop-returned".into(), format!("{} submissions made after stop had returned were accepted, e.g. {}", accepted_after.len(), accepted_after[0])));
+    }
+    let obs = jobj! {"stop_result" => format!("{res:?}"), "stop_ms" => stop_ms, "accepted_before_stop" => accepted.len(), "ran_when_stop_returned" => ran_at_stop.len(),
+        "racing_submissions" => late.len(), "racing_submissions_accepted" => late.iter().filter(|x| x.1).count(), "racing_submissions_rejected" => late.iter().filter(|x| !x.1).count()};
+    let fp = format!("{loops}|{n}|{delayed_pct}|{workers}");
+    std::mem::forget(hs);
+    match viol {
+        Some((k, d)) => out.end(case, Verdict::Violated, &format!("C12/{k}/{}-loop", if loops > 1 { "multi" } else { "single" }), true, &fp, obs, &d),
+        None => out.end(case, Verdict::Held, "", late.iter().any(|x| !x.1) && delayed_pct > 0, &fp, obs, ""),
+    }
+}
+
 fn main() {
     let args = Args::parse();
     let out = Out::open(&args);
@@ -365,6 +1106,11 @@ fn main() {
     match args.pos.first().map(String::as_str) {
         Some("c01") => c01(seed, case, &out),
         Some("c02") => c02(seed, case, &out),
+        Some("c15") => c15(seed, case, &out),
+        Some("c20") => c20(seed, case, &out),
+        Some("c21") => c21(seed, case, &out),
+        Some("c13") => c13(seed, case, &out),
+        Some("c12") => c12(seed, case, &out),
         other => {
             eprintln!("unknown subcommand {other:?}");
             std::process::exit(64);
